@@ -24,6 +24,7 @@ class Store:
         self.fail_reads = 0  # the next n reads raise OSError(EIO) (transient I/O error)
         self.fail_path = None  # ... restricted to paths containing this text (None: any path)
         self.fail_skip = 0  # ... after letting this many matching reads through
+        self.delay_foreign_reads = 0  # seconds by which a file's first read from a non-opener thread is delayed
         # products whose files are handed out as ONE shared file object per path (what fsspec's
         # memory filesystem does): open() rewinds it, close() leaves it open
         self.shared_products = set()
@@ -88,6 +89,8 @@ class TracedFile(io.RawIOBase):
         self.data = data
         self.pos = 0
         self.handle = id(self)
+        self.opener = threading.get_ident()
+        self.foreign_delayed = False
 
     def readable(self):
         return True
@@ -122,6 +125,13 @@ class TracedFile(io.RawIOBase):
         return chunk
 
     def _read_now(self, size):
+        if self.store.delay_foreign_reads and not self.foreign_delayed and threading.get_ident() != self.opener:
+            # the first read that a thread other than the opener issues on this file object is
+            # held up a little: requests handed to helper threads do not arrive in submission order
+            self.foreign_delayed = True
+            import time
+
+            time.sleep(self.store.delay_foreign_reads)
         if self.store.fail_reads > 0 and (self.store.fail_path is None or self.store.fail_path in self.path):
             if self.store.fail_skip > 0:
                 self.store.fail_skip -= 1
